@@ -279,7 +279,9 @@ def run(ctx):
         names = sorted({f'{c["name"]}{"+enriched" if c["enrich"] else ""}' for c, _ in lst})
         ctx.violation(sig, small, f'{v.get(sig, det)}\nseen on {len(lst)} zoo cases: {", ".join(names)[:300]}')
     feats = sorted({f for e in zoo for f in e.features})
-    ctx.require(clean >= 5, f'vacuous: only {clean} zoo cases round-trip cleanly')
+    # a floor on clean round trips guards against a zoo that only ever hits known findings; it must not turn
+    # a genuinely broken pickling (every case violating with new signatures) into a harness error
+    ctx.require(clean >= 5 or any(sig not in known for sig in by_sig), f'vacuous: only {clean} zoo cases round-trip cleanly')
     ctx.cov.update(
         evaluations=len(cs), distinct_nontrivial=nontrivial, exhaustive=True, clean_cases=clean,
         single_edit_checks=nedits, zoo_entries=len(zoo), features=feats,
